@@ -584,10 +584,21 @@ def check_cutoff(ctx):
                         for m in meta[:2]]}
 
 
+def check_oracle(ctx):
+    """the property stated directly on the real implementation (same sweep as search()); every witness is a
+    confirmed violation -- listed findings are recognised by the runner, anything else alarms"""
+    ws = search(ctx, [], []) or []
+    return {'name': 'impl_oracle', 'n': getattr(ctx, 'c11_oracle_evals', 0), 'nontrivial': getattr(ctx, 'c11_oracle_evals', 0),
+            'disagreements': [dict(w, violates_property=True) for w in ws],
+            'samples': [{'lens': 'paraboloid', 'num_rays': 16, 'grid_size': 32}],
+            'note': 'kinds seen: ' + ', '.join(sorted({w['kind'] for w in ws}))}
+
+
 def system_checks(ctx):
     r = check_psf_pipeline(ctx)
     psfs = r.pop('_psfs', [])
     yield r
+    yield check_oracle(ctx)
     yield check_mtf_pipeline(ctx, psfs)
     yield check_freq_axis(ctx)
     yield check_difflim(ctx)
@@ -645,6 +656,14 @@ def oracle_lens(o, n, grid, perfect=False, name='lens'):
         if abs(cv[0] - 1) > 1e-9 or cv.min() < -1e-12 or cv.max() > 1 + 1e-9:
             out.append({'kind': 'mtf-range', 'site': 'FFTMTF', 'lens': name, 'curve': nm, 'first': float(cv[0]),
                         'min': float(cv.min()), 'max': float(cv.max())})
+    # working F-number, stated independently of _get_fno
+    px = o.paraxial
+    wf = float(px.FNO())
+    if not o.object_surface.is_infinite:
+        wf *= 1 + abs(float(px.magnification())) / (float(px.XPD()) / float(px.EPD()))
+    if abs(float(m.FNO) - wf) > 1e-9 * abs(wf) or abs(float(m.max_freq) - 1.0 / (lam * 1e-3 * wf)) > 1e-9 / (lam * 1e-3 * abs(wf)):
+        out.append({'kind': 'working-fno', 'site': 'FFTMTF._get_fno', 'lens': name, 'FNO': float(m.FNO), 'expected': wf,
+                    'max_freq': float(m.max_freq)})
     # frequency axis: cut-off index num_rays must sit at 1/(lambda_mm * working FNO)
     dx = float(m._get_mtf_units())
     want = 1.0 / (lam * 1e-3 * float(m.FNO))
@@ -652,9 +671,15 @@ def oracle_lens(o, n, grid, perfect=False, name='lens'):
         out.append({'kind': 'freq-axis', 'site': 'FFTMTF._get_mtf_units', 'lens': name, 'grid_size': grid, 'num_rays': n,
                     'wavelength': float(lam), 'FNO': float(m.FNO), 'cutoff_reported': dx * n, 'cutoff_expected': want,
                     'ratio': dx * n / want})
-    if perfect and np.all(np.isfinite(m.mtf[0][0])):
+    curves = None
+    if np.all(np.isfinite(m.mtf[0][0])):
+        try:
+            curves = _axis_from_view(m)
+        except ValueError as e:
+            out.append({'kind': 'view-axis-length', 'site': 'FFTMTF.view', 'lens': name, 'num_rays': n, 'grid_size': grid,
+                        'axis_len': grid // 2, 'curve_len': int(len(m.mtf[0][0])), 'python_error': str(e)[:100]})
+    if perfect and curves:
         # plotted curve against the plotted diffraction limit
-        curves = _axis_from_view(m)
         ref = [c for c in curves if c[0] == 'Diffraction Limit']
         tan = [c for c in curves if 'Tangential' in c[0]]
         if ref and tan:
@@ -693,8 +718,10 @@ def search(ctx, broken, disagreements):
     import lensgen
     r = random.Random(ctx.seed + 101)
     found = {}
+    ctx.c11_oracle_evals = 0
 
     def add(ws):
+        ctx.c11_oracle_evals += 1
         for w in ws:
             found.setdefault((w['kind'], w.get('site')), w)
     for (n, grid) in [(16, 32), (16, 33), (17, 32), (17, 33), (24, 64), (32, 64)] + ([(64, 256), (33, 128)] if not ctx.quick() else []):
@@ -747,6 +774,9 @@ def matches_finding(w, f):
             and w.get('traced_samples') == _mask_counts(w['num_rays'])[0]
     if k == 'cutoff-fno':
         return w.get('site') == m['site'] and w.get('object_infinite') is False and bool(w.get('uses_paraxial_fno'))
+    if k == 'view-axis-length':
+        g = w.get('grid_size', 0)
+        return w.get('site') == m['site'] and g % 2 == 1 and w.get('axis_len') == g // 2 and w.get('curve_len') == g - g // 2
     return False
 
 
@@ -773,13 +803,16 @@ def replay_finding(ctx, f):
     if k == 'mask-mismatch':
         ws = oracle_lens(paraboloid(), rp.get('num_rays', 31), rp.get('grid_size', 64))
         return any(matches_finding(w, f) for w in ws)
+    if k == 'view-axis-length':
+        ws = oracle_lens(paraboloid(), rp.get('num_rays', 17), rp.get('grid_size', 33), perfect=True)
+        return any(matches_finding(w, f) for w in ws)
     if k == 'cutoff-fno':
         from optiland.mtf import GeometricMTF, FFTMTF
         o = finite_singlet()
         gm = GeometricMTF(o, fields=[(0.0, 0.0)], num_rays=6, num_points=4)
         fm = FFTMTF(o, fields=[(0.0, 0.0)], num_rays=6, grid_size=8)
-        return abs(gm.max_freq - fm.max_freq) > 1e-9 * fm.max_freq and \
-            abs(gm.max_freq * o.paraxial.FNO() - fm.max_freq * fm.FNO) < 1e-9 * fm.max_freq * fm.FNO
+        return bool(abs(gm.max_freq - fm.max_freq) > 1e-9 * fm.max_freq and
+                    abs(gm.max_freq * o.paraxial.FNO() - fm.max_freq * fm.FNO) < 1e-9 * fm.max_freq * fm.FNO)
     return None
 
 
